@@ -523,6 +523,10 @@ func init() {
 		"vRange": func(fr *frame, args []value) value {
 			v := symScalar(strArg(args[0]), types.Int).(sym)
 			lo, hi := toTerm(args[1], 64), toTerm(args[2], 64)
+			if lo.IsConst() && hi.IsConst() && !X.NoFork {
+				// fresh variable constrained only by a concrete range: every value is feasible
+				return int(X.EnumRange(v.t, int64(lo.K), int64(hi.K), siteSalt(71)))
+			}
 			X.Assume(BAnd(Cmp(OpSle, lo, v.t), Cmp(OpSle, v.t, hi)))
 			return int(int64(X.Concretise(v.t, siteSalt(71))))
 		},
